@@ -332,7 +332,7 @@ def plan(ch, tier):
     single = set()
     for i in range(nsubs):
         kind = ch.weighted("kind", [("loop_raw", 4), ("loop_bool", 2), ("handler", 3), ("light_mach", 1.3),
-                                    ("light_mode", 1.3), ("evplayer", 0.8), ("coil", 0.6)])
+                                    ("light_mode", 2.0), ("evplayer", 0.8), ("coil", 0.6)])
         if kind in single:
             kind = "loop_raw"
         if kind in ("light_mach", "light_mode", "evplayer", "coil"):
@@ -415,6 +415,7 @@ def plan(ch, tier):
             for k in ("k1", "k2"):
                 if c.flag("haskw", 0.8):
                     op["kw"][k] = c.pick("kwv", VALS_ANY[:-1] + [2, 3])
+            op["etype"] = c.weighted("etype", [("post", 6), ("queue", 1.5), ("relay", 1.5), ("boolean", 1)])
             if depth == 0 and c.flag("inside", 0.3):
                 op["inside"] = gen_op(c.sub("in"), 1)
                 if op["inside"]["op"] in ("post_h", "game_start", "add_player", "end_ball", "end_game"):
@@ -431,6 +432,19 @@ def plan(ch, tier):
             op["when"] = ["dt", ch.pick("dt", [0.0, 0.001, 0.001, 0.01, 0.05])]
         else:
             op["when"] = ["dt", ch.pick("dtl", [0.3, 1.0, 2.5])]
+        if op["op"] in ("m1_stop", "end_ball", "end_game") and ch.flag("race", 0.6):
+            # a subscription that completes while its owner is going away: change a variable, then stop the
+            # mode / end the turn a few loop iterations later
+            pre = None
+            for _try in range(4):
+                pre = gen_op(ch.sub("race"), 1)
+                if pre["op"] in ("set_mv", "set_pv", "set_setting", "counter", "switch"):
+                    break
+                pre = None
+            if pre is not None:
+                pre["when"] = op["when"]
+                ops.append(pre)
+                op["when"] = ["soon", ch.choice("racehops", SOON)]
         ops.append(op)
     return {"knobs": knobs, "flags": flags, "refs": refs, "subs": subs, "ops": ops}
 
@@ -557,9 +571,8 @@ class Truth:
     def player_key(self, p):
         k = self.pkey.get(p)
         if k is None:
-            if p.vars.get("index") == 0:
-                self.games += 1
-            k = self.pkey[p] = "g%dp%d" % (self.games, p.vars.get("index"))
+            self.games += 1         # serial number in order of first sight: unique per player object
+            k = self.pkey[p] = "P%d.%d" % (self.games, p.vars.get("index"))
             self.pv[p] = dict(PV_INITIAL)
         return k
 
@@ -955,12 +968,12 @@ def execute(ctx, plan):
         if s["kind"] == "coil":
             ctx.probe("coil_template")
     if plan["flags"].get("slow_stop"):
-        # a game-long mode whose stop takes time (a blocking handler of its stopping queue event, as mode
+        # the stop of the game mode takes time (a blocking handler of its stopping queue event, as mode
         # code commonly does): the game object lives on for a while after game_ended
         def slow_stop(queue, **kwargs):
             queue.wait()
             sim.after(0.05, queue.clear)
-        m.events.add_handler("mode_g2_stopping", slow_stop)
+        m.events.add_handler("mode_game_stopping", slow_stop)
     ep_fired = [0]
     def _ep_fired(**kwargs):
         ep_fired[0] += 1
@@ -1000,7 +1013,7 @@ def execute(ctx, plan):
         slot = {"exp": None, "called": False}
 
         def clean(kwargs):
-            return {k: v for k, v in kwargs.items() if k != "_c16"}
+            return {k: v for k, v in kwargs.items() if k not in ("_c16", "queue")}
 
         def pre(**kwargs):
             st, v, _ = py.run(s["expr"], clean(kwargs))
@@ -1191,7 +1204,15 @@ def execute(ctx, plan):
             sim.hit_switch(op["name"], op["state"])
         elif kind == "post_h":
             pending_inside.append(op.get("inside"))
-            m.events.post("ev_h", _c16=1, **op["kw"])
+            et = op.get("etype", "post")
+            if et == "queue":
+                m.events.post_queue("ev_h", callback=lambda **kwargs: None, _c16=1, **op["kw"])
+            elif et == "relay":
+                m.events.post_relay("ev_h", _c16=1, **op["kw"])
+            elif et == "boolean":
+                m.events.post_boolean("ev_h", _c16=1, **op["kw"])
+            else:
+                m.events.post("ev_h", _c16=1, **op["kw"])
         elif kind in ("game_start", "add_player", "end_ball", "end_game"):
             # one game transition per instant: overlapping transitions are the game's own business (other properties)
             if now == game_op_t[0]:
